@@ -40,7 +40,7 @@ func runC04(c *Ctx) {
 		// partial block of exactly offset bytes, then finalize
 		bad := ""
 		for o := int64(0); o <= 15; o++ {
-			w := &pathWalker{env: newEnv(), lengths: true, maxSteps: 2000}
+			w := &pathWalker{env: newEnv(), lengths: true, maxSteps: 2000, opaque: map[string]bool{"update": true, "updateGeneric": true, "finalize": true}}
 			offKey := fieldPathIn(f, "offset")
 			w.state = map[string]int64{offKey: o}
 			var evs []string
